@@ -152,6 +152,108 @@ async fn random_history(hrng: &mut Rng, gpar: &GenParams, big: bool, case: usize
     (sim, desc)
 }
 
+
+/// A fork across the window edge: two identical nodes share blocks 1..k-1; node 1 adds its own
+/// block k, node 2 builds a competing block k and a block k+1 on it; both are then delivered to
+/// node 1, which reorganises. Oracles on node 1: supply after the reorganisation, no panic,
+/// same in-window utxo set as node 2 (whose linear history goes to the model).
+async fn fork_history(hrng: &mut Rng, gp: u64, case: usize, summary: &mut Summary) -> (Sim, String) {
+    let nkeys = 4u8;
+    let issuance = gen_issuance(hrng, nkeys, false);
+    let mut a = Sim::new(gp, 8, nkeys, &issuance, 1_000_000).await;
+    let mut b = Sim::new(gp, 8, nkeys, &issuance, 1_000_000).await;
+    let shared = (gp + 2 + hrng.below(gp + 3)) as usize;
+    let desc = format!(
+        "{{\"case\":{},\"kind\":\"fork\",\"genesis_period\":{},\"shared_blocks\":{},\"issuance\":{:?}}}",
+        case, gp, shared, jpairs(&issuance)
+    );
+    let mut ok = true;
+    for i in 0..shared {
+        let ts = a.tip().timestamp + 2 * HEARTBEAT + hrng.below(5000);
+        let spendable = a.spendable();
+        let mut txs = vec![];
+        if !spendable.is_empty() {
+            let k = hrng.below(spendable.len() as u64) as usize;
+            txs.push(gen_payment(&a, hrng, &spendable[k], 2, false, ts));
+        }
+        let with_gt = want_gt(&a, hrng, txs.is_empty());
+        let gt = if with_gt {
+            let parent = a.tip().clone();
+            Some(gt_tx_for(&a.node, &parent, a.keys[1].0, i as u64 * 17 + case as u64).await)
+        } else {
+            None
+        };
+        let (co, sr) = a.honest_step(ts, gt.clone(), &txs).await;
+        if co != CreateOutcome::Ok || sr.add != Some(AddClass::OnChain) {
+            ok = false;
+            break;
+        }
+        let blk = a.tip().clone();
+        let sr2 = b.step(ts, gt, &txs, CreateOutcome::NotCalled, None, Some(blk)).await;
+        if sr2.add != Some(AddClass::OnChain) {
+            summary.oracle_failure(case, "the same block is accepted by one node and not by its twin", &desc);
+            ok = false;
+            break;
+        }
+        c02_oracle(&mut a, &sr, case, summary, &desc, None);
+    }
+    if ok {
+        // node A: its own block k; node B: a competing block k and a block k+1
+        let mut branch = |sim: &Sim, hrng: &mut Rng, pick_last: bool, ts: u64| -> Vec<Transaction> {
+            // only outputs that exist at the fork point and will not be rebroadcast by the next two blocks
+            let next = sim.tip().id + 1;
+            let sp: Vec<_> = sim.spendable().into_iter().filter(|s| s.block_id + sim.gp + 1 > next + 1).collect();
+            if sp.is_empty() {
+                return vec![];
+            }
+            let k = if pick_last { sp.len() - 1 } else { 0 };
+            vec![gen_payment(sim, hrng, &sp[k], 2, false, ts)]
+        };
+        let ts = a.tip().timestamp + 2 * HEARTBEAT + 700;
+        let txa = branch(&a, hrng, false, ts);
+        let parent = a.tip().clone();
+        let gta = gt_tx_for(&a.node, &parent, a.keys[1].0, 901).await;
+        let (_c, sra) = a.honest_step(ts, Some(gta), &txa).await;
+        ok = c02_oracle(&mut a, &sra, case, summary, &desc, None) && sra.add == Some(AddClass::OnChain);
+        let txb = branch(&b, hrng, true, ts + 11);
+        let gtb = gt_tx_for(&b.node, &parent, b.keys[2].0, 902).await;
+        let (_c, srb) = b.honest_step(ts + 11, Some(gtb), &txb).await;
+        ok = ok && srb.add == Some(AddClass::OnChain);
+        if ok {
+            let ts2 = b.tip().timestamp + 2 * HEARTBEAT + 900;
+            let txb2 = branch(&b, hrng, false, ts2);
+            let gt2 = if txb2.is_empty() { let p = b.tip().clone(); Some(gt_tx_for(&b.node, &p, b.keys[2].0, 903).await) } else { None };
+            let (_c, srb2) = b.honest_step(ts2, gt2, &txb2).await;
+            ok = srb2.add == Some(AddClass::OnChain);
+        }
+        if ok {
+            let n = b.chain.len();
+            let (bk, bk1) = (b.chain[n - 2].clone(), b.chain[n - 1].clone());
+            let r1 = verif_harness::chainsim::futures_catch(std::panic::AssertUnwindSafe(a.node.add_block(bk))).await;
+            let r2 = verif_harness::chainsim::futures_catch(std::panic::AssertUnwindSafe(a.node.add_block(bk1))).await;
+            summary.count("fork_delivery", &format!("{:?}/{:?}", r1.clone().map(|c| c.code()), r2.clone().map(|c| c.code())));
+            match (r1, r2) {
+                (Ok(AddClass::OffChain), Ok(AddClass::OnChain)) => {
+                    let sa = big_supply(&a.node).unwrap();
+                    if sa != a.issued {
+                        summary.oracle_failure(case, &format!("after the reorganisation the supply is {} but {} was issued", sa, a.issued), &desc);
+                    }
+                    let mut ia = Interner::default();
+                    let mut ib = Interner::default();
+                    if window_utxo(&a.node, &mut ia) != window_utxo(&b.node, &mut ib) {
+                        summary.oracle_failure(case, "after the reorganisation the in-window utxo set differs from the one of a node that only saw the winning chain", &desc);
+                    }
+                }
+                (r1, r2) => {
+                    summary.oracle_failure(case, &format!("fork delivery: sibling {:?}, its child {:?} (expected off-chain, then on-chain)", r1, r2), &desc);
+                }
+            }
+        }
+    }
+    summary.count("fork", &format!("gp{}", gp));
+    (b, desc)
+}
+
 /// deterministic chain with large fees (fee per byte > 0) used as prefix of the scripted cases
 async fn scripted_prefix(gp: u64, pab: u64, issuance: &[(usize, u64)], blocks: usize, seed: u64) -> Sim {
     let mut rng = Rng::new(seed);
@@ -373,7 +475,7 @@ async fn main() {
         cases.push(Case { desc, nontrivial_key: format!("scripted:{}", name) });
     }
 
-    let n_hist = if thorough { 160 } else { 22 };
+    let n_hist = if thorough { 300 } else { 40 };
     for h in 0..n_hist {
         let case = cases.len();
         let mut hrng = rng.fork();
@@ -382,7 +484,7 @@ async fn main() {
             gp,
             pab: *hrng.pick(&[8u64, 8, 6, 20]),
             nkeys: hrng.range(3, 6) as u8,
-            blocks: if thorough { hrng.range(30, 70) as usize } else { hrng.range(14, 30) as usize },
+            blocks: if thorough { hrng.range(30, 90) as usize } else { hrng.range(16, 40) as usize },
             fee_mode: h as u64 % 3,
             hops: hrng.chance(1, 2),
         };
@@ -393,10 +495,20 @@ async fn main() {
         cases.push(Case { desc, nontrivial_key: format!("random:gp{}:fee{}:wraps{}:big{}", gp, gpar.fee_mode, wraps.min(3), big) });
     }
 
+    let n_fork = if thorough { 24 } else { 4 };
+    for h in 0..n_fork {
+        let case = cases.len();
+        let mut hrng = rng.fork();
+        let gp = [3u64, 4, 5, 8][h % 4];
+        let (sim, desc) = fork_history(&mut hrng, gp, case, &mut summary).await;
+        coq_cases.push(sim.history_literal());
+        cases.push(Case { desc, nontrivial_key: format!("fork:gp{}", gp) });
+    }
+
     // non-trivial: scripted adversarial cases and random histories whose window wrapped at least once
     let mut distinct = BTreeSet::new();
     for c in &cases {
-        if c.nontrivial_key.starts_with("scripted") || !c.nontrivial_key.contains("wraps0") {
+        if c.nontrivial_key.starts_with("scripted") || c.nontrivial_key.starts_with("fork") || !c.nontrivial_key.contains("wraps0") {
             distinct.insert(c.nontrivial_key.clone());
         }
     }
